@@ -211,17 +211,18 @@ def to_cellml(sysd, rng, nla=False, perm=None, rename=None):
                     sysd['eqtext'][q.idx] = '<apply><eq/>%s%s</apply>' % ((rhs, lhs) if rng.random() < 0.2 else (lhs, rhs))
         sysd['nla_block'] = None
         if nla:
-            blk = NLA_BLOCK % (rng.choice(['3', '5', '2.5']), rng.choice(['sec', 'abs', 'csch', 'exp', 'arccot']))
+            nvars = ['<variable name="nx" units="dimensionless" initial_value="1"/>', '<variable name="ny" units="dimensionless" initial_value="1"/>',
+                     '<variable name="na" units="dimensionless" initial_value="%s"/>' % rng.choice(['3', '5', '2.5'])]
+            neqs = ['<apply><eq/><apply><plus/><ci>nx</ci><apply><%s/><ci>ny</ci></apply></apply><ci>na</ci></apply>' % rng.choice(['sec', 'abs', 'csch', 'exp', 'arccot']),
+                    '<apply><eq/><apply><minus/><ci>nx</ci><ci>ny</ci></apply><cn cellml:units="dimensionless">1</cn></apply>']
             if rng.random() < 0.6:
-                # consumers of the NLA unknowns: a chain nz = f(nx), nw = g(nz), nu = h(nw, na) listed in random order
-                extra = ['<apply><eq/><ci>nz</ci><apply><times/><cn cellml:units="dimensionless">2</cn><ci>nx</ci></apply></apply>',
+                # consumers of the NLA unknowns: a chain nz = f(nx), nw = g(nz), nu = h(nw, na)
+                neqs += ['<apply><eq/><ci>nz</ci><apply><times/><cn cellml:units="dimensionless">2</cn><ci>nx</ci></apply></apply>',
                          '<apply><eq/><ci>nw</ci><apply><plus/><ci>nz</ci><cn cellml:units="dimensionless">1</cn></apply></apply>',
                          '<apply><eq/><apply><minus/><ci>nw</ci><ci>na</ci></apply><ci>nu</ci></apply>']
-                rng.shuffle(extra)
-                blk = blk.replace('<math', '<variable name="nz" units="dimensionless"/>\n    <variable name="nw" units="dimensionless"/>\n    <variable name="nu" units="dimensionless"/>\n    <math')
-                k = rng.randint(0, 2)
-                blk = blk.replace('<apply><eq/><apply><plus/><ci>nx</ci>', ''.join(extra[:k]) + '<apply><eq/><apply><plus/><ci>nx</ci>').replace('\n    </math>', ''.join(extra[k:]) + '\n    </math>')
-            sysd['nla_block'] = blk
+                nvars += ['<variable name="nz" units="dimensionless"/>', '<variable name="nw" units="dimensionless"/>', '<variable name="nu" units="dimensionless"/>']
+            rng.shuffle(neqs)
+            sysd['nla_block'] = (nvars, neqs)
         sysd['eqorder'] = {c: [q.idx for q in qs if q.home == c and q.rhs is not None] for c in range(sysd['ncomp'])}
         for c in sysd['eqorder']:
             rng.shuffle(sysd['eqorder'][c])
@@ -267,7 +268,10 @@ def to_cellml(sysd, rng, nla=False, perm=None, rename=None):
         blk.append('  </component>')
         blocks.append('\n'.join(blk))
     if sysd.get('nla_block'):
-        blocks.append(sysd['nla_block'])
+        nvars, neqs = list(sysd['nla_block'][0]), list(sysd['nla_block'][1])
+        if perm:
+            perm.shuffle(nvars); perm.shuffle(neqs)
+        blocks.append('  <component name="cnla">\n    ' + '\n    '.join(nvars) + '\n    <math xmlns="http://www.w3.org/1998/Math/MathML">\n      ' + '\n      '.join(neqs) + '\n    </math>\n  </component>')
         if perm:
             perm.shuffle(blocks)
     out += blocks
